@@ -140,8 +140,9 @@ func (e *Engine) Discharge(obls []*Obligation, opt SolveOpts) error {
 		return err
 	}
 	type job struct {
-		o    *Obligation
-		file string
+		o      *Obligation
+		file   string
+		slices []string
 	}
 	var jobs []job
 	for i, o := range obls {
@@ -164,7 +165,23 @@ func (e *Engine) Discharge(obls []*Obligation, opt SolveOpts) error {
 			return err
 		}
 		o.SmtPath = f
-		jobs = append(jobs, job{o, f})
+		j := job{o: o, file: f}
+		// sliced variants (hypotheses connected to the goal within 1 / 2 steps): tried first, cheap and sound
+		if o.Expect != "sat" && len(o.Hyps) > 12 {
+			for d := 1; d <= 2; d++ {
+				idx := sliceHyps(o, d)
+				if len(idx) >= len(o.Hyps)-2 {
+					continue
+				}
+				if qs, err := e.BuildQuerySliced(o, idx); err == nil {
+					fs := filepath.Join(opt.Dir, fmt.Sprintf("o%04d.s%d.smt2", i, d))
+					if os.WriteFile(fs, []byte("; "+o.Name+" (slice "+fmt.Sprint(d)+")\n"+qs), 0o644) == nil {
+						j.slices = append(j.slices, fs)
+					}
+				}
+			}
+		}
+		jobs = append(jobs, j)
 	}
 	var wg sync.WaitGroup
 	ch := make(chan job)
@@ -187,7 +204,40 @@ func (e *Engine) Discharge(obls []*Obligation, opt SolveOpts) error {
 					}
 					continue
 				}
+				sliced := false
+				if len(j.slices) > 0 && !opt.All {
+					// quick attempt on the full query first: most obligations discharge in well under a second
+					rq := race(j.file, 2, false)
+					if rq.verdict == "unsat" || rq.verdict == "sat" {
+						o.Solver, o.Seconds, o.Output = rq.solver, rq.secs, rq.output
+						if rq.verdict == "unsat" {
+							o.Status = "discharged"
+						} else {
+							o.Status = "failed"
+						}
+						continue
+					}
+				}
+				for _, fs := range j.slices {
+					rs := race(fs, 3, false)
+					if rs.verdict == "unsat" {
+						o.Solver, o.Seconds, o.Output, o.Status = rs.solver+"/sliced", rs.secs, rs.output, "discharged"
+						sliced = true
+						break
+					}
+				}
+				if sliced && !opt.All {
+					continue
+				}
 				r := race(j.file, opt.TimeoutS, opt.All)
+				if sliced {
+					// thorough tier: the full query is still run to detect solver disagreement
+					if r.verdict == "sat" || r.verdict == "disagree" {
+						o.Status = "error"
+						o.Output = "sliced query unsat but full query " + r.verdict
+					}
+					continue
+				}
 				o.Solver, o.Seconds, o.Output = r.solver, r.secs, r.output
 				switch r.verdict {
 				case "unsat":
